@@ -1,6 +1,7 @@
 import CircBuf.Lemmas.CloneFault
 import CircBuf.Lemmas.UserFault
 import CircBuf.Lemmas.FillFault
+import CircBuf.Lemmas.CloneFault2
 /-!
 # C06 — a panic in user code (Clone, closure, iterator, eq) leaves a valid buffer
 
@@ -16,6 +17,10 @@ The fault plan is "the `k+1`-th call of that kind panics", for **every** `k`, ca
   stays valid and holds the old contents (for `fill`: nothing, they were destroyed once each)
   followed by the `k` clones made before the panic; the value handed in, which the callee owns, is
   destroyed exactly once; no clone is lost or destroyed.
+* **`T::clone` in `clone_from`** (`C06_clone_in_clone_from`): the old contents were destroyed once each,
+  the buffer is valid and holds the clones made so far.
+* **`T::clone` in `Clone::clone`** (`C06_clone_in_clone`): the source buffer is literally untouched; the
+  partially built copy is dropped during unwinding, destroying each clone made exactly once.
 * **closure of `fill_with` / `fill_spare_with`** (`C06_closure`): the buffer holds the old contents
   followed by the `k` elements produced before the panic — every created element is in the buffer.
 * **iterator given to `extend` / `from_iter`** (`C06_iterator`): the buffer holds what pushing the
@@ -56,6 +61,18 @@ theorem C06_clone_in_fill (s : Sys) (value : Elem) (k : Nat) (h : Inv s.buf)
 example : let s : Sys := { buf := CB.new 4, faults := { clone := 2 } }
     Inv s.buf ∧ s.faults.drop = 0 ∧ s.faults.clone = 1 + 1 ∧ 1 < s.buf.cap - 1 - s.buf.size := by
   refine ⟨(inv_new' 4 (by unfold W; omega)).1, rfl, rfl, by decide⟩
+
+theorem C06_clone_in_clone_from (other : List Elem) (s : Sys) (k : Nat) (h : Inv s.buf)
+    (hd : s.faults.drop = 0) (hc : s.faults.clone = k + 1) (hk : k < other.length) :
+    ∃ s', cloneFrom other s = (.error (.user "clone"), s') ∧ Inv s'.buf ∧ s'.buf.cap = s.buf.cap ∧
+      abs s'.buf = Spec.lastN s.buf.cap (cloneList s.kind s.next (other.take k)) :=
+  cloneFrom_clone_fault other s k h hd hc hk
+
+theorem C06_clone_in_clone (s : Sys) (k : Nat) (h : Inv s.buf)
+    (hd : s.faults.drop = 0) (hc : s.faults.clone = k + 1) (hk : k < s.buf.size) :
+    ∃ s' pre, cloneBuf s = (.error (.user "clone"), s') ∧ s'.buf = s.buf ∧
+      s'.log = dropEvents s.kind (cloneList s.kind s.next ((abs s.buf).take k)) ++ pre :=
+  cloneBuf_clone_fault s k h hd hc hk
 
 theorem C06_closure (fuel : Nat) (s : Sys) (k : Nat) (h : Inv s.buf)
     (hd : s.faults.drop = 0) (hc : s.faults.call = k + 1) (hk : s.kind = .tracked)
